@@ -1,18 +1,459 @@
 package main
 
-// replay.go — turning solver models into executions of the real code.
+// replay.go — turning solver output into executions of the real code.
+//
+// A failed obligation of a function whose parameters are integers, booleans,
+// strings and byte slices is replayed as follows: the obligation's query is
+// weakened (every quantified assertion is dropped, slice lengths are bounded)
+// so that the solver returns a concrete candidate input quickly; the candidate
+// is then EXECUTED against the real function through `go test -overlay` (an
+// in-package test, nothing is written into the repository).  Only the
+// execution decides: a candidate that makes the real code panic confirms a
+// failing input; anything else leaves the verdict "no-failing-input-found".
 
-import "encoding/json"
+import (
+	"bytes"
+	"context"
+	"encoding/json"
+	"fmt"
+	"go/types"
+	"os"
+	"os/exec"
+	"path/filepath"
+	"regexp"
+	"strconv"
+	"strings"
+	"time"
+
+	"golang.org/x/tools/go/ssa"
+)
 
 type ReplayResult struct {
 	Confirmed bool
 	Log       string
 	TestSrc   string
+	PkgDir    string
 }
 
 func jsonUnmarshal(b []byte, v interface{}) error { return json.Unmarshal(b, v) }
 
-// tryReplay attempts to reconstruct a failing input from a model.
+type replayParam struct {
+	name string // SMT symbol
+	kind string // int | bool | bytes | string
+	gty  string // Go type text
+}
+
+func replayable(fn *ssa.Function) ([]replayParam, bool) {
+	if fn == nil || fn.Signature.Recv() != nil || fn.Parent() != nil || fn.Pkg == nil || fn.TypeParams().Len() > 0 {
+		return nil, false
+	}
+	var ps []replayParam
+	for _, p := range fn.Params {
+		rp := replayParam{name: "p_" + sanitize(p.Name()), gty: types.TypeString(p.Type(), func(*types.Package) string { return "" })}
+		switch u := p.Type().Underlying().(type) {
+		case *types.Basic:
+			switch {
+			case u.Info()&types.IsInteger != 0:
+				rp.kind = "int"
+			case u.Info()&types.IsBoolean != 0:
+				rp.kind = "bool"
+			case u.Info()&types.IsString != 0:
+				rp.kind = "string"
+			default:
+				return nil, false
+			}
+		case *types.Slice:
+			b, ok := u.Elem().Underlying().(*types.Basic)
+			if !ok || b.Kind() != types.Uint8 {
+				return nil, false
+			}
+			rp.kind = "bytes"
+		default:
+			return nil, false
+		}
+		if strings.Contains(rp.gty, ".") {
+			return nil, false // named types of other packages: keep the generator simple
+		}
+		ps = append(ps, rp)
+	}
+	return ps, len(ps) > 0
+}
+
+var quantRe = regexp.MustCompile(`\((forall|exists) `)
+
+// topForms splits SMT-LIB text into its top-level forms (comments dropped).
+func topForms(smt string) []string {
+	var forms []string
+	depth, start := 0, -1
+	inStr, inCom, inBar := false, false, false
+	for i := 0; i < len(smt); i++ {
+		c := smt[i]
+		switch {
+		case inCom:
+			if c == '\n' {
+				inCom = false
+			}
+		case inStr:
+			if c == '"' {
+				inStr = false
+			}
+		case inBar:
+			if c == '|' {
+				inBar = false
+			}
+		case c == ';':
+			inCom = true
+		case c == '"':
+			inStr = true
+		case c == '|':
+			inBar = true
+		case c == '(':
+			if depth == 0 {
+				start = i
+			}
+			depth++
+		case c == ')':
+			depth--
+			if depth == 0 && start >= 0 {
+				forms = append(forms, smt[start:i+1])
+				start = -1
+			}
+		}
+	}
+	return forms
+}
+
+// weaken drops every assertion that contains a quantifier and the trailing
+// check-sat/get-model; declarations and ground facts stay.  With keepRec the
+// fuelled recursive specification functions (sexp.go) are turned back into
+// native define-fun-rec definitions, which the solver can evaluate on
+// concrete arguments while it searches for a model.
+func weaken(smt string, keepRec bool) string {
+	forms, _ := parseSexps(smt)
+	// executable stand-ins for uninterpreted library functions (candidate search only)
+	replayDefs := ""
+	defined := map[string]bool{}
+	if keepRec {
+		if b, err := os.ReadFile(replayDefsPath); err == nil {
+			replayDefs = string(b)
+			dfs, _ := parseSexps(replayDefs)
+			for _, d := range dfs {
+				if d.isL && len(d.list) > 1 && strings.HasPrefix(d.list[0].atom, "define-fun") {
+					defined[d.list[1].atom] = true
+				}
+			}
+		}
+	}
+	rec := map[string]bool{}
+	for _, f := range forms {
+		if f.isL && len(f.list) >= 2 && f.list[0].atom == "declare-fun" && strings.HasSuffix(f.list[1].atom, "!C") {
+			rec[strings.TrimSuffix(f.list[1].atom, "!C")] = true
+		}
+	}
+	retSort := map[string]string{}
+	var sb strings.Builder
+	for _, f := range forms {
+		if !f.isL || len(f.list) == 0 {
+			continue
+		}
+		head := f.list[0].atom
+		txt := f.String()
+		switch head {
+		case "check-sat", "get-model", "get-value", "define-fun-rec", "define-funs-rec":
+			continue
+		case "set-logic":
+			sb.WriteString(txt + "\n" + replayDefs)
+			continue
+		case "declare-fun":
+			name := f.list[1].atom
+			if defined[name] {
+				continue
+			}
+			base := strings.TrimSuffix(name, "!C")
+			if rec[base] {
+				if keepRec {
+					if name == base {
+						retSort[base] = f.list[3].String()
+					}
+					continue // re-introduced below as define-fun-rec
+				}
+			}
+		case "assert":
+			if keepRec && len(f.list) == 2 {
+				if d := recDefinition(f.list[1], rec, retSort); d != "" {
+					if d != "-" {
+						sb.WriteString(d + "\n")
+					}
+					continue
+				}
+			}
+			if quantRe.MatchString(txt) {
+				continue
+			}
+		}
+		sb.WriteString(txt)
+		sb.WriteByte('\n')
+	}
+	return sb.String()
+}
+
+// recDefinition recognises the two axioms fuelRewrite emits for a recursive
+// function f: the synonym axiom (returns "-") and the defining axiom (returns
+// the native definition).
+func recDefinition(q *sx, rec map[string]bool, retSort map[string]string) string {
+	if !q.isL || len(q.list) != 3 || q.list[0].atom != "forall" {
+		return ""
+	}
+	params, body := q.list[1], q.list[2]
+	if !body.isL || len(body.list) < 2 || body.list[0].atom != "!" {
+		return ""
+	}
+	eq := body.list[1]
+	if !eq.isL || len(eq.list) != 3 || eq.list[0].atom != "=" || !eq.list[1].isL || len(eq.list[1].list) == 0 {
+		return ""
+	}
+	lhs := eq.list[1].list[0].atom
+	if strings.HasSuffix(lhs, "!C") && rec[strings.TrimSuffix(lhs, "!C")] {
+		return "-"
+	}
+	if !rec[lhs] || retSort[lhs] == "" {
+		return ""
+	}
+	return "(define-fun-rec " + lhs + " " + params.String() + " " + retSort[lhs] + " " + eq.list[2].rename(lhs+"!C", lhs).String() + ")"
+}
+
+func runZ3(script string, dir string, tS int) string {
+	f := filepath.Join(dir, fmt.Sprintf("replay-%d.smt2", time.Now().UnixNano()))
+	os.WriteFile(f, []byte(script), 0o644)
+	defer os.Remove(f)
+	ctx, cancel := context.WithTimeout(context.Background(), time.Duration(tS+2)*time.Second)
+	defer cancel()
+	cmd := exec.CommandContext(ctx, "z3-new", fmt.Sprintf("-T:%d", tS), f)
+	var out bytes.Buffer
+	cmd.Stdout = &out
+	cmd.Stderr = &out
+	_ = cmd.Run()
+	return out.String()
+}
+
+var valRe = regexp.MustCompile(`\(\(([^()]|\([^()]*\))+? (\(- )?(\d+|true|false)\)?\)`)
+
+// parseValues reads the answer of (get-value (t1 t2 …)) positionally.
+func parseValues(out string, n int) ([]string, bool) {
+	i := strings.Index(out, "((")
+	if i < 0 {
+		return nil, false
+	}
+	body := out[i:]
+	var vals []string
+	// each entry ends with " <value>)" where value is d | (- d) | true | false
+	entryRe := regexp.MustCompile(`\s(\(-\s*\d+\)|\d+|true|false)\)\s*(\(|\)$|\)\s*$)`)
+	rest := body
+	for len(vals) < n {
+		loc := entryRe.FindStringSubmatchIndex(rest)
+		if loc == nil {
+			break
+		}
+		v := rest[loc[2]:loc[3]]
+		v = strings.NewReplacer("(", "", ")", "", " ", "").Replace(v)
+		vals = append(vals, v)
+		rest = rest[loc[3]+1:]
+	}
+	return vals, len(vals) == n
+}
+
+const replayMaxLen = 48
+const replayBudget = 10
+
+var replayCount int
+
+var replayDefsPath = "/verif/spec/replay_defs.smt2.txt"
+
 func tryReplay(e *Engine, res *SolveResult, frs []*FuncResult) *ReplayResult {
-	return nil
+	fnKey := strings.TrimSuffix(res.Obl.Func, "#errflow")
+	fn := e.fns[fnKey]
+	ps, ok := replayable(fn)
+	if !ok || res.File == "" {
+		return nil
+	}
+	replayCount++
+	if replayCount > replayBudget {
+		return &ReplayResult{Log: fmt.Sprintf("replay not attempted: more than %d failed obligations in this run\n", replayBudget)}
+	}
+	raw, err := os.ReadFile(res.File)
+	if err != nil {
+		return nil
+	}
+	tmp, err := os.MkdirTemp("", "govc-replay")
+	if err != nil {
+		return nil
+	}
+	defer os.RemoveAll(tmp)
+	total := &ReplayResult{}
+	seen := map[string]bool{}
+	for _, keepRec := range []bool{true, false} {
+		for _, maxLen := range []int{8, replayMaxLen} {
+			r := replayAttempt(e, fn, ps, string(raw), res, tmp, keepRec, maxLen, seen)
+			total.Log += r.Log
+			if r.TestSrc != "" {
+				total.TestSrc = r.TestSrc
+				total.PkgDir = r.PkgDir
+			}
+			if r.Confirmed {
+				total.Confirmed = true
+				return total
+			}
+		}
+	}
+	return total
+}
+
+func replayAttempt(e *Engine, fn *ssa.Function, ps []replayParam, raw string, res *SolveResult, tmp string, keepRec bool, maxLen int, seen map[string]bool) *ReplayResult {
+	log := &strings.Builder{}
+	fmt.Fprintf(log, "-- candidate search (recursive spec functions %s, slice length <= %d)\n", map[bool]string{true: "kept", false: "dropped"}[keepRec], maxLen)
+	base := "(set-option :produce-models true)\n" + weaken(raw, keepRec)
+	if !strings.Contains(base, "(declare-const BM_in ") {
+		base += "(declare-const BM_in (Array Int (Array Int Int)))\n"
+	}
+	var sizeTerms []string
+	for _, p := range ps {
+		if !strings.Contains(base, "(declare-const "+p.name+" ") {
+			fmt.Fprintf(log, "parameter symbol %s not found\n", p.name)
+			return &ReplayResult{Log: log.String()}
+		}
+		switch p.kind {
+		case "bytes", "string":
+			base += fmt.Sprintf("(assert (<= (s_len %s) %d))\n", p.name, maxLen)
+			sizeTerms = append(sizeTerms, "(s_len "+p.name+")", "(s_base "+p.name+")")
+		case "int", "bool":
+			sizeTerms = append(sizeTerms, p.name, p.name)
+		}
+	}
+	out1 := runZ3(base+"(check-sat)\n(get-value ("+strings.Join(sizeTerms, " ")+"))\n", tmp, 10)
+	first := firstVerdict(out1)
+	if first != "sat" {
+		fmt.Fprintf(log, "weakened query answered %q (no candidate input)\n", first)
+		return &ReplayResult{Log: log.String()}
+	}
+	v1, ok := parseValues(out1, len(sizeTerms))
+	if !ok {
+		fmt.Fprintf(log, "could not read the solver's values\n")
+		return &ReplayResult{Log: log.String()}
+	}
+	// second query: fix the shapes, read every element
+	q2 := base
+	var terms []string
+	type shape struct{ n, base int }
+	shapes := map[string]shape{}
+	for i, p := range ps {
+		if p.kind == "bytes" || p.kind == "string" {
+			n, _ := strconv.Atoi(v1[2*i])
+			b, _ := strconv.Atoi(v1[2*i+1])
+			shapes[p.name] = shape{n, b}
+			q2 += fmt.Sprintf("(assert (= (s_len %s) %d))\n(assert (= (= (s_base %s) 0) %v))\n", p.name, n, p.name, b == 0)
+			for k := 0; k < n; k++ {
+				terms = append(terms, fmt.Sprintf("(select (select BM_in (s_base %s)) (idx (s_off %s) %d))", p.name, p.name, k))
+			}
+		} else {
+			terms = append(terms, p.name)
+		}
+	}
+	var v2 []string
+	if len(terms) > 0 {
+		out2 := runZ3(q2+"(check-sat)\n(get-value ("+strings.Join(terms, " ")+"))\n", tmp, 10)
+		if firstVerdict(out2) != "sat" {
+			fmt.Fprintf(log, "second query not sat\n")
+			return &ReplayResult{Log: log.String()}
+		}
+		v2, ok = parseValues(out2, len(terms))
+		if !ok {
+			fmt.Fprintf(log, "could not read element values\n")
+			return &ReplayResult{Log: log.String()}
+		}
+	}
+	var args []string
+	pos := 0
+	for _, p := range ps {
+		switch p.kind {
+		case "int":
+			args = append(args, p.gty+"("+v2[pos]+")")
+			pos++
+		case "bool":
+			args = append(args, v2[pos])
+			pos++
+		case "bytes", "string":
+			sh := shapes[p.name]
+			var bs []string
+			for k := 0; k < sh.n; k++ {
+				x, _ := strconv.Atoi(v2[pos])
+				pos++
+				bs = append(bs, strconv.Itoa(((x%256)+256)%256))
+			}
+			lit := "[]byte{" + strings.Join(bs, ", ") + "}"
+			if p.kind == "string" {
+				args = append(args, "string("+lit+")")
+			} else if sh.base == 0 && sh.n == 0 {
+				args = append(args, "[]byte(nil)")
+			} else {
+				args = append(args, lit)
+			}
+		}
+	}
+	call := fn.Name() + "(" + strings.Join(args, ", ") + ")"
+	fmt.Fprintf(log, "candidate input: %s\n", call)
+	if seen[call] {
+		fmt.Fprintf(log, "(already executed)\n")
+		return &ReplayResult{Log: log.String()}
+	}
+	seen[call] = true
+	src := "package " + fn.Pkg.Pkg.Name() + "\n\nimport \"testing\"\n\n// candidate input for obligation " + res.Obl.Name + "\nfunc TestGovcReplay(t *testing.T) {\n\tdefer func() {\n\t\tif r := recover(); r != nil {\n\t\t\tt.Fatalf(\"GOVC-REPLAY-PANIC: %v\", r)\n\t\t}\n\t}()\n\t" + discardResults(fn) + call + "\n}\n"
+	pkgDir := e.repo
+	if rel := strings.TrimPrefix(fn.Pkg.Pkg.Path(), "github.com/cosmos/iavl"); rel != "" {
+		pkgDir = filepath.Join(e.repo, rel)
+	}
+	testFile := filepath.Join(tmp, "zz_govc_replay_test.go")
+	os.WriteFile(testFile, []byte(src), 0o644)
+	for _, f := range []string{"go.mod", "go.sum"} {
+		if b, err := os.ReadFile(filepath.Join(e.repo, f)); err == nil {
+			os.WriteFile(filepath.Join(tmp, f), b, 0o644)
+		}
+	}
+	ov, _ := json.Marshal(map[string]map[string]string{"Replace": {filepath.Join(pkgDir, "zz_govc_replay_test.go"): testFile}})
+	os.WriteFile(filepath.Join(tmp, "ov.json"), ov, 0o644)
+	ctx, cancel := context.WithTimeout(context.Background(), 180*time.Second)
+	defer cancel()
+	cmd := exec.CommandContext(ctx, "go", "test", "-modfile="+filepath.Join(tmp, "go.mod"), "-overlay", filepath.Join(tmp, "ov.json"), "-vet=off", "-count=1", "-timeout", "60s", "-run", "^TestGovcReplay$", ".")
+	cmd.Dir = pkgDir
+	cmd.Env = append(os.Environ(), "GOFLAGS=-mod=mod", "GOPROXY=off", "GOSUMDB=off", "GOTOOLCHAIN=local")
+	var out bytes.Buffer
+	cmd.Stdout = &out
+	cmd.Stderr = &out
+	_ = cmd.Run()
+	o := out.String()
+	confirmed := strings.Contains(o, "GOVC-REPLAY-PANIC") || strings.Contains(o, "fatal error:")
+	if confirmed {
+		fmt.Fprintf(log, "execution on the real code: the call PANICS — failing input confirmed\n")
+	} else {
+		fmt.Fprintf(log, "execution on the real code: no panic with this candidate (candidates come from a weakened query and need not fail)\n")
+	}
+	fmt.Fprintf(log, "%s\n", truncate(o, 2000))
+	return &ReplayResult{Confirmed: confirmed, Log: log.String(), TestSrc: src, PkgDir: pkgDir}
+}
+
+func firstVerdict(out string) string {
+	for _, l := range strings.Split(out, "\n") {
+		l = strings.TrimSpace(l)
+		if l == "sat" || l == "unsat" || l == "unknown" || l == "timeout" {
+			return l
+		}
+	}
+	return strings.TrimSpace(strings.SplitN(out, "\n", 2)[0])
+}
+
+func discardResults(fn *ssa.Function) string {
+	n := fn.Signature.Results().Len()
+	if n == 0 {
+		return ""
+	}
+	return strings.TrimSuffix(strings.Repeat("_, ", n), ", ") + " = "
 }
